@@ -31,3 +31,24 @@ package encoder
 //@ vars v Bool
 //@ ensures specBoolRoundTrip(v)
 //@ property C04
+
+// ---------------------------------------------------------------------------
+// C18: safety sweep of the decoder: for arbitrary input bytes / readers no
+// index, slice, nil, type-assertion, division, make or map panic, and no
+// allocation whose size comes from the input without being backed by input
+// bytes already in hand.
+
+//@ func toVarint
+//@ params data
+//@ requires len(data) >= 1
+//@ property C18
+
+//@ func (*UndefinedType).UnmarshalBinary, (*Bool).UnmarshalBinary, (*Int).UnmarshalBinary, (*Uint).UnmarshalBinary, (*Char).UnmarshalBinary, (*Float).UnmarshalBinary, (*String).UnmarshalBinary, (*Bytes).UnmarshalBinary
+//@ requires $recv != nil
+//@ modifies *$recv
+//@ property C18
+
+//@ func readByteFrom
+//@ params r
+//@ requires r != nil
+//@ property C18
